@@ -58,34 +58,32 @@ def unit_HsmsGuards():
         raise G.P.Untranslatable("HsmsProtocol._on_state_connect not found")
     guards = []
     for st in fn.body:
-        if isinstance(st, ast.If):
-            starts_thread = any(isinstance(n, ast.Call) and G.P.dotted(n.func) == "threading.Thread" for n in ast.walk(st))
-            if starts_thread:
-                guards.append(ast.unparse(st.test))
+        if isinstance(st, ast.If) and any(isinstance(n, ast.Call) and G.P.dotted(n.func) == "threading.Thread" for n in ast.walk(st)):
+            guards.append(ast.unparse(st.test))
     if len(guards) != 1:
         raise G.P.Untranslatable(f"_on_state_connect: expected exactly one `if` that starts the Select thread, found {len(guards)}")
     opts = []
     for rel in ("common/tcp_connection.py", "common/tcp_client_connection.py", "common/tcp_server_connection.py"):
+        found = []
         for n in ast.walk(G.parse(rel)):
             if isinstance(n, ast.Call) and isinstance(n.func, ast.Attribute) and n.func.attr == "setsockopt":
                 if len(n.args) < 2:
                     raise G.P.Untranslatable(f"{rel}: setsockopt with {len(n.args)} arguments")
-                opts.append((n.lineno, rel.split("/")[-1], ast.unparse(n.func.value), ast.unparse(n.args[0]), ast.unparse(n.args[1])))
-    opts = [o[1:] for o in sorted(opts, key=lambda o: (o[1], o[0]))]
+                found.append((n.lineno, rel.split("/")[-1], ast.unparse(n.func.value), ast.unparse(n.args[0]), ast.unparse(n.args[1])))
+        opts += [f[1:] for f in sorted(found)]
 
     def q(x):
         return '"' + x.replace("\\", "\\\\").replace('"', '\\"') + '"'
     out = [G.HEADER.format(src="secsgem/hsms/protocol.py (_on_state_connect), secsgem/common/tcp_*connection.py (setsockopt calls)"),
-           "namespace SecsModel.Gen.HsmsGuards
-",
+           "namespace SecsModel.Gen.HsmsGuards\n",
            "/-- source text of the condition under which `_on_state_connect` starts the Select thread -/",
-           f"def selectGuard : String := {q(guards[0])}\n",
+           "def selectGuard : String := " + q(guards[0]) + "\n",
            "/-- every `setsockopt` call of the TCP connection classes: (file, receiver, level, option) -/",
            "def sockOpts : List (String × String × String × String) := ["
            + ", ".join("(" + ", ".join(q(x) for x in o) + ")" for o in opts) + "]\n",
            "end SecsModel.Gen.HsmsGuards\n"]
     G.write("HsmsGuards", "\n".join(out))
-    G.FACTS["HsmsGuards"] = {"selectGuard": guards[0], "sockOpts": opts}
+    G.FACTS["HsmsGuards"] = {"selectGuard": guards[0], "sockOpts": [list(o) for o in opts]}
 
 
 UNITS = {"RxOrder": unit_RxOrder, "HsmsGuards": unit_HsmsGuards}
